@@ -890,6 +890,7 @@ void Channel4::MakeTable()
 	{
 		kftable[i] = int(0x10000 * pow(2., i / 768.) );
 	}
+	tablehasmade = true;
 }
 
 // リセット
@@ -1154,3 +1155,10 @@ void Channel4::DataLoad(struct Channel4Data* data) {
 	pms = pmtable[op[0].type_][op[0].ms_ & 7];
 }
 }	// namespace FM
+
+// The sine/envelope/LFO/key-fraction tables are shared and constant: build them at load time,
+// before threads can race on the lazy initialisation
+static struct FmgenTablesInit
+{
+	FmgenTablesInit() { FM::Channel4 first; (void)first; }
+} s_fmgenTablesInit;
